@@ -65,7 +65,7 @@ func (idk *IdKeeper) update(bndl *bpv7.Bundle) {
 func (idk *IdKeeper) clean() {
 	idk.mutex.Lock()
 
-	var threshold = bpv7.DtnTimeNow() - 60*60*24
+	var threshold = bpv7.DtnTimeNow() - 60*60*24*1000 // one day; DtnTime counts milliseconds
 
 	for tpl := range idk.data {
 		if tpl.time < threshold && tpl.time != bpv7.DtnTimeEpoch {
